@@ -100,7 +100,7 @@ package apk
 //
 //@ import "hash"
 //
-//@ func writeTgz(w io.Writer, kind tarKind, builder func(tw *tar.Writer) error, digest hash.Hash) (sum []byte, err error)
+//@ inline func writeTgz(w io.Writer, kind tarKind, builder func(tw *tar.Writer) error, digest hash.Hash) (sum []byte, err error)
 //@   requires !ghostFlag("failed")
 //@   ensures [C04] segment-is-block-aligned: implies(err == nil, len(globStr("compressedInput")) % 512 == 0)
 //@   ensures [C04] cut-segment-has-no-end-marker: implies(err == nil && kind == tarCut, globStr("compressedInput") == globStr("tarStreamAtClose") + ufStr("zeros", globInt("tarPadAtClose")))
